@@ -114,8 +114,10 @@ func (tw *TimerWheel[K, V]) advance(now int64, remove func(entry *Entry[K, V], r
 func (tw *TimerWheel[K, V]) expire(index int, prevTicks int64, delta int64, remove func(entry *Entry[K, V], reason RemoveReason)) {
 	mask := tw.buckets[index] - 1
 	steps := tw.buckets[index]
-	if delta < int64(steps) {
-		steps = uint(delta)
+	// visit the slot of the current tick as well, so entries of the
+	// coarser wheels cascade down when their tick begins, not when it ends
+	if delta+1 < int64(steps) {
+		steps = uint(delta + 1)
 	}
 	start := prevTicks & int64(mask)
 	end := start + int64(steps)
